@@ -62,7 +62,7 @@ def _case(draw):
     if op == "construct":
         alts, rel = draw(_family("a", ["b"], disjoint=draw(st.booleans())))
         alts = list(draw(st.permutations(alts)))
-        return {"op": op, "alts": alts, "rel": sorted(set(rel))}
+        return {"op": op, "alts": alts, "rel": sorted(set(rel)), "via": draw(st.sampled_from(["nested", "contract-constructor", "from_strings"]))}
     if op == "contains":
         alts, rel = draw(_family("a", ["b"], disjoint=False))
         beh = {"a": float(draw(st.sampled_from([-5, -4, -3, -2, -1, 0, 1, 2, 3, 4, 5, 0.5, 1.5, -0.5, 2.5]))),
@@ -80,6 +80,11 @@ def _case(draw):
             a2 = list(draw(st.permutations(a2)))
         else:
             a2 = a1 + draw(_family("a", ["b"], disjoint=False))[0]
+        empty = draw(st.sampled_from(["none", "none", "none", "none", "right", "left", "both"]))
+        if empty in ("right", "both"):
+            a2, kind = [], "empty-right"
+        if empty in ("left", "both"):
+            a1 = []
         return {"op": op, "alts": a1, "alts2": a2[:4], "lekind": kind, "rel": sorted(set(r1))}
     # merge of two compound contracts over the same interface (inputs a,b; output x)
     aa1, ra1 = draw(_family("a", ["b"], disjoint=True))
@@ -116,7 +121,17 @@ def run_case(case):
             for j in range(i + 1, len(alts)):
                 if exact.feasible([exact.conj(alts[i]), exact.conj(alts[j])]):
                     share = (i, j)
-        status, res = env.call("NestedPolyhedra", nested, alts, True)
+        via = case.get("via", "nested")
+        if via == "nested":
+            status, res = env.call("NestedPolyhedra", nested, alts, True)
+        elif via == "contract-constructor":
+            # the compound contract constructor must re-validate assumptions built without the disjointness check
+            status, res = env.call("PolyhedralIoContractCompound", lambda: env.PolyhedralIoContractCompound(
+                nested(alts, False), nested([[[{"x": 1.0}, 0.0]]], False), [env.Var("a"), env.Var("b")], [env.Var("x")]))
+        else:
+            status, res = env.call("from_strings", lambda: env.PolyhedralIoContractCompound.from_strings(
+                [env.TL(a).to_str_list() for a in alts], [["x <= 0"]], ["a", "b"], ["x"]), documented=env.STRING_DOCUMENTED)
+        labels.append("via:" + via)
         viol = None
         labels.append("share-point:%s" % (share is not None))
         if share is not None and status == "ok":
